@@ -434,7 +434,8 @@ def replay_handler(inputs, clause):
     c, x = inputs["c"], ty(inputs["x"]) if vt == "int" else float(inputs["x"])
     res = getattr(d, op)(c)
     if res is not d:
-        return None
+        ok = getattr(res, "operator", None) == op and getattr(res, "object", None) is d and tuple(getattr(res, "operands", ())) == (c,) and not getattr(res, "kwoperands", None)
+        return None if ok else f"X.{op}({c!r}) built the node operator={getattr(res, 'operator', None)!r} object-is-X={getattr(res, 'object', None) is d} operands={getattr(res, 'operands', None)!r}; expected operator {op!r} over (X; {c!r})"
     try:
         v = _real_op(op, x, c) if op not in ("__pow__", "__rpow__") else (x**c if op == "__pow__" else c**x)
     except ZeroDivisionError:
